@@ -1609,7 +1609,109 @@ def t16_observer_effects():
         "def sharedState : List (String × String) :=\n  [" + ", ".join(row(r) for r in dedup(shared)) + "]\n\nend NirVerif.Generated.ObserverEffects\n"
     return {"ObserverEffects.lean": txt}
 
-ITEMS = {"T1": t1_fields, "T2": t2_whitelist, "T3": t3_file_modes, "T4": t4_conv_axis, "T5": t5_flatten, "T6": t6_lif, "T7": t7_cuba, "T8": t8_unique_name, "T9": t9_neuron_shapes, "T10": t10_guards, "T11": t11_dict_overrides, "T12": t12_graph_interface, "T13": t13_write_shape, "T14": t14_worklist, "T15": t15_check_errors, "T16": t16_observer_effects}
+
+# ---------------------------------------------------------------------------------------
+# T17  the declared types of the parameterised primitives as the constructors spell them (C05)
+# ---------------------------------------------------------------------------------------
+def t17_declared_types():
+    item = "T17"
+    D = ExprT(item, "num", {})
+    rows = []
+
+    def shape_of_self(e):
+        """self.<f>.shape -> f"""
+        if isinstance(e, ast.Attribute) and e.attr == "shape" and isinstance(e.value, ast.Attribute) \
+                and isinstance(e.value.value, ast.Name) and e.value.value.id == "self":
+            return e.value.attr
+        return None
+
+    def const_int(e):
+        if e is None:
+            return None
+        if isinstance(e, ast.Constant) and isinstance(e.value, int) and not isinstance(e.value, bool):
+            return e.value
+        if isinstance(e, ast.UnaryOp) and isinstance(e.op, ast.USub) and isinstance(e.operand, ast.Constant) \
+                and isinstance(e.operand.value, int):
+            return -e.operand.value
+        raise Refusal(item, f"slice bound is not an integer literal: {ast.unparse(e)}")
+
+    def opt(i):
+        return "none" if i is None else f"(some ({i}))"
+
+    def tr(e, cls):
+        f = shape_of_self(e)
+        if f is not None:
+            return f"(.whole {lean_str(f)})"
+        if isinstance(e, ast.Subscript) and shape_of_self(e.value) is not None and isinstance(e.slice, ast.Slice) and e.slice.step is None:
+            return f"(.slice {lean_str(shape_of_self(e.value))} {opt(const_int(e.slice.lower))} {opt(const_int(e.slice.upper))})"
+        if isinstance(e, ast.Tuple) and len(e.elts) == 1 and isinstance(e.elts[0], ast.Subscript) \
+                and shape_of_self(e.elts[0].value) is not None and not isinstance(e.elts[0].slice, ast.Slice):
+            return f"(.item {lean_str(shape_of_self(e.elts[0].value))} ({const_int(e.elts[0].slice)}))"
+        if isinstance(e, ast.BinOp) and isinstance(e.op, ast.Add):
+            return f"(.cat {tr(e.left, cls)} {tr(e.right, cls)})"
+        # tuple(np.array(X).T): the transpose of a rank-1 array is itself, tuple() of it the same integers
+        if isinstance(e, ast.Call) and D.dotted(e.func) == "tuple" and len(e.args) == 1 and not e.keywords:
+            a = e.args[0]
+            if isinstance(a, ast.Attribute) and a.attr == "T":
+                a = a.value
+            if isinstance(a, ast.Call) and D.dotted(a.func) in ("np.array", "np.asarray") and len(a.args) == 1 and not a.keywords:
+                a = a.args[0]
+            return tr(a, cls)
+        raise Refusal(item, f"{cls}: declared type outside the shape-expression grammar: {ast.unparse(e)}")
+
+    def declared(st, attr, key, cls):
+        if not (isinstance(st.value, ast.Dict) and len(st.value.keys) == 1 and isinstance(st.value.keys[0], ast.Constant)
+                and st.value.keys[0].value == key):
+            raise Refusal(item, f"{cls}: self.{attr} is not a dictionary with the single key {key!r}")
+        v = st.value.values[0]
+        if not (isinstance(v, ast.Call) and D.dotted(v.func) == "np.array" and len(v.args) == 1):
+            raise Refusal(item, f"{cls}: self.{attr}[{key!r}] is not np.array(…): {ast.unparse(v)}")
+        as_int = False
+        for k in v.keywords:
+            if k.arg == "dtype" and ((isinstance(k.value, ast.Name) and k.value.id == "int") or D.dotted(k.value) in ("np.int64", "np.int_")):
+                as_int = True
+            else:
+                raise Refusal(item, f"{cls}: unexpected keyword in np.array: {ast.unparse(k)}")
+        return tr(v.args[0], cls), as_int
+
+    for rel, classes in (("nir/ir/linear.py", ["Affine", "Linear", "Scale"]), ("nir/ir/threshold.py", ["Threshold"]),
+                         ("nir/ir/delay.py", ["Delay"]), ("nir/ir/neuron.py", ["CubaLIF", "I", "IF", "LI", "LIF"])):
+        tree = ast.parse(_src(rel))
+        for cls in classes:
+            fn = _find_func(tree, "__post_init__", cls)
+            if fn is None:
+                raise Refusal(item, f"{cls}.__post_init__ not found")
+            got = {}
+            for st in fn.body:
+                # only top-level statements: a declaration under a condition is outside the grammar
+                for sub in ast.walk(st):
+                    if isinstance(sub, ast.Assign) and len(sub.targets) == 1 and isinstance(sub.targets[0], ast.Attribute) \
+                            and isinstance(sub.targets[0].value, ast.Name) and sub.targets[0].value.id == "self" \
+                            and sub.targets[0].attr in ("input_type", "output_type"):
+                        if sub is not st:
+                            raise Refusal(item, f"{cls}: self.{sub.targets[0].attr} assigned inside a compound statement")
+                        if sub.targets[0].attr in got:
+                            raise Refusal(item, f"{cls}: self.{sub.targets[0].attr} assigned twice")
+                        got[sub.targets[0].attr] = declared(sub, sub.targets[0].attr,
+                                                            "input" if sub.targets[0].attr == "input_type" else "output", cls)
+                    elif isinstance(sub, (ast.Attribute,)) and isinstance(sub.ctx, (ast.Store, ast.Del)) and isinstance(sub.value, ast.Attribute) \
+                            and sub.value.attr in ("input_type", "output_type"):
+                        raise Refusal(item, f"{cls}: a declared type is modified after assignment")
+                    elif isinstance(sub, ast.Subscript) and isinstance(sub.ctx, (ast.Store, ast.Del)) and isinstance(sub.value, ast.Attribute) \
+                            and sub.value.attr in ("input_type", "output_type"):
+                        raise Refusal(item, f"{cls}: a declared type is modified after assignment")
+            if set(got) != {"input_type", "output_type"}:
+                raise Refusal(item, f"{cls}.__post_init__ does not assign both declared types")
+            rows.append((cls, got["input_type"], got["output_type"]))
+    b = lambda x: "true" if x else "false"
+    txt = HEADER + "import NirVerif.Spec.ShapeExpr\n\nnamespace NirVerif.Generated\nopen NirVerif.Spec\n\n" \
+        "/-- per parameterised primitive: the expression `np.array(…)` wraps in `self.input_type = {\"input\": …}`, whether\n" \
+        "    `dtype=int` is given, and the same for the output -/\n" \
+        "def declaredTypes : List (String × (ShapeE × Bool) × (ShapeE × Bool)) :=\n  [" + \
+        ",\n   ".join(f"({lean_str(c)}, ({i[0]}, {b(i[1])}), ({o[0]}, {b(o[1])}))" for c, i, o in rows) + "]\n\nend NirVerif.Generated\n"
+    return {"DeclaredTypes.lean": txt}
+
+ITEMS = {"T1": t1_fields, "T2": t2_whitelist, "T3": t3_file_modes, "T4": t4_conv_axis, "T5": t5_flatten, "T6": t6_lif, "T7": t7_cuba, "T8": t8_unique_name, "T9": t9_neuron_shapes, "T10": t10_guards, "T11": t11_dict_overrides, "T12": t12_graph_interface, "T13": t13_write_shape, "T14": t14_worklist, "T15": t15_check_errors, "T16": t16_observer_effects, "T17": t17_declared_types}
 
 
 def regenerate(out_dir=OUT, items=None):
